@@ -360,7 +360,7 @@ def evaluate__log(self: XPathFunction, context: ta.ContextType = None) -> ta.One
     arg: ta.NumericType | None = self.get_argument(self.context or context, cls=NumericProxy)
     if arg is None:
         return []
-    return float('-inf') if not arg else math.nan if arg <= -1 else math.log(arg)
+    return float('-inf') if not arg else math.nan if arg < 0 else math.log(arg)
 
 
 @method(function('log10', prefix='math', nargs=1, sequence_types=('xs:double?', 'xs:double?')))
@@ -368,7 +368,7 @@ def evaluate__log10(self: XPathFunction, context: ta.ContextType = None) -> ta.O
     arg: ta.NumericType | None = self.get_argument(self.context or context, cls=NumericProxy)
     if arg is None:
         return []
-    return float('-inf') if not arg else math.nan if arg <= -1 else math.log10(arg)
+    return float('-inf') if not arg else math.nan if arg < 0 else math.log10(arg)
 
 
 @method(function('pow', prefix='math', nargs=2,
@@ -948,6 +948,9 @@ def evaluate__format_date_time(self: XPathFunction, context: ta.ContextType = No
         except ElementPathError as err:
             err.token = self
             raise
+        except ValueError as err:
+            # e.g. a numeric presentation modifier for a component that is not a number ([PI])
+            raise self.error('FOFD1340', err) from None
 
     result.append(literals[-1])
     return ''.join(result)
